@@ -53,15 +53,8 @@ type wrapW struct{ http.ResponseWriter }
 
 func ident(v interface{}) string { return fmt.Sprintf("%T@%p", v, v) }
 
+// c06AttrKeys holds the attribute keys of the configuration under test (set before its requests start).
 var c06AttrKeys []string
-
-func init() {
-	for _, lv := range []string{"C", "S", "R"} {
-		for i := 0; i < 6; i++ {
-			c06AttrKeys = append(c06AttrKeys, fmt.Sprintf("k-%s%d", lv, i))
-		}
-	}
-}
 
 func attrsOf(req *restful.Request) string {
 	var b strings.Builder
@@ -145,8 +138,10 @@ func mkFilter(name string, beh int) restful.FilterFunction {
 }
 
 type c06Route struct {
-	Path    string
-	Filters []int // behaviours
+	Path     string
+	Filters  []int // behaviours
+	Produces string
+	Idx      int
 }
 type c06Svc struct {
 	Root    string
@@ -160,10 +155,15 @@ type c06Config struct {
 	Encoding  bool
 }
 
+// names: container filters C<i>, service filters S<svc>_<i>, route filters R<route>_<i> - a filter's name says whose it is.
 func names(level string, behs []int) []string {
 	out := make([]string, len(behs))
 	for i := range behs {
-		out[i] = fmt.Sprintf("%s%d", level, i)
+		if level == "C" {
+			out[i] = fmt.Sprintf("C%d", i)
+		} else {
+			out[i] = fmt.Sprintf("%s_%d", level, i)
+		}
 	}
 	return out
 }
@@ -185,10 +185,10 @@ func buildC06(cfg *c06Config) *restful.Container {
 		}
 		resp.WriteErrorString(err.Code, err.Message)
 	})
-	for _, s := range cfg.Svcs {
+	for si, s := range cfg.Svcs {
 		ws := new(restful.WebService).Path(s.Root)
-		for i, b := range s.Filters {
-			ws.Filter(mkFilter(fmt.Sprintf("S%d", i), b))
+		for i, n := range names(fmt.Sprintf("S%d", si), s.Filters) {
+			ws.Filter(mkFilter(n, s.Filters[i]))
 		}
 		for _, r := range s.Routes {
 			rb := ws.GET(r.Path).To(func(req *restful.Request, resp *restful.Response) {
@@ -196,8 +196,11 @@ func buildC06(cfg *c06Config) *restful.Container {
 				resp.WriteHeader(200)
 				resp.Write([]byte("ok"))
 			})
-			for i, b := range r.Filters {
-				rb.Filter(mkFilter(fmt.Sprintf("R%d", i), b))
+			if r.Produces != "" {
+				rb.Produces(r.Produces)
+			}
+			for i, n := range names(fmt.Sprintf("R%d", r.Idx), r.Filters) {
+				rb.Filter(mkFilter(n, r.Filters[i]))
 			}
 			ws.Route(rb)
 		}
@@ -211,6 +214,7 @@ func buildC06(cfg *c06Config) *restful.Container {
 }
 
 type c06Req struct {
+	Accept string   `json:"accept,omitempty"`
 	ID     int      `json:"id"`
 	Path   string   `json:"path"`
 	Method string   `json:"method"`
@@ -329,7 +333,7 @@ func genBehs(r *core.Rand, max int) []int {
 
 func c06(ctx *core.Ctx) {
 	quietLogs()
-	ctx.Rule("generated configurations: 0-5 container filters, two WebServices with 0-3 service filters and two routes with 0-3 route filters each, behaviour per filter in {pass, set attribute, replace Request, replace Response, replace http.Request, HttpMiddlewareHandlerToFilter around a wrapping middleware, set ResponseWriter}; any filter short-circuits on demand of the request. 40-request sequences (routed, 404/405 routing failures, HandleWithFilter) run sequentially on one container and then from 16 goroutines (race detector on). Offline checker per request: exact enter/pass/exit sequence = prefix of [container.., service.., route.., handler] with reversed exits, each once, hand-over identity of (Request, Response, http.Request, writer, attributes). Non-trivial = a request whose chain has >= 2 elements; distinct by (filter counts per level, short-circuit position, request kind, behaviours on the path).")
+	ctx.Rule("generated configurations: 0-5 container filters, two WebServices with 0-3 service filters, two routes and a pair of representation twins (same method and path, JSON vs XML) with 0-3 route filters each, every filter named after its owner, behaviour per filter in {pass, set attribute, replace Request, replace Response, replace http.Request, HttpMiddlewareHandlerToFilter around a wrapping middleware, set ResponseWriter}; any filter short-circuits on demand of the request. 40-request sequences (routed, 404/405 routing failures, HandleWithFilter) run sequentially on one container and then from 16 goroutines (race detector on). Offline checker per request: exact enter/pass/exit sequence = prefix of [container.., service.., route.., handler] with reversed exits, each once, hand-over identity of (Request, Response, http.Request, writer, attributes). Non-trivial = a request whose chain has >= 2 elements; distinct by (filter counts per level, short-circuit position, request kind, behaviours on the path).")
 	ctx.Assume("a filter that replaces the Request copies the attributes it knows about (the API offers no enumeration)")
 	configs := ctx.N(250, 20000)
 	for ci := 0; ci < configs; ci++ {
@@ -338,16 +342,37 @@ func c06(ctx *core.Ctx) {
 		}
 		r := ctx.Rand(ci, "cfg")
 		cfg := &c06Config{Router: routerOf(ci), Container: genBehs(r, 5)}
+		ridx := 0
 		for si := 0; si < 2; si++ {
 			s := c06Svc{Root: fmt.Sprintf("/f%d", si), Filters: genBehs(r, 3)}
 			for ri := 0; ri < 2; ri++ {
-				s.Routes = append(s.Routes, c06Route{Path: fmt.Sprintf("/r%d", ri), Filters: genBehs(r, 3)})
+				s.Routes = append(s.Routes, c06Route{Path: fmt.Sprintf("/r%d", ri), Filters: genBehs(r, 3), Idx: ridx})
+				ridx++
+			}
+			// representation twins: same method and path, other Produces, other route filters
+			for _, m := range []string{restful.MIME_JSON, restful.MIME_XML} {
+				s.Routes = append(s.Routes, c06Route{Path: "/tw", Filters: genBehs(r, 3), Produces: m, Idx: ridx})
+				ridx++
 			}
 			cfg.Svcs = append(cfg.Svcs, s)
 		}
 		ctx.Case(ci, core.JSON(cfg))
 		c := buildC06(cfg)
 		cn := names("C", cfg.Container)
+		c06AttrKeys = nil
+		for _, n := range cn {
+			c06AttrKeys = append(c06AttrKeys, "k-"+n)
+		}
+		for si, s := range cfg.Svcs {
+			for _, n := range names(fmt.Sprintf("S%d", si), s.Filters) {
+				c06AttrKeys = append(c06AttrKeys, "k-"+n)
+			}
+			for _, rr := range s.Routes {
+				for _, n := range names(fmt.Sprintf("R%d", rr.Idx), rr.Filters) {
+					c06AttrKeys = append(c06AttrKeys, "k-"+n)
+				}
+			}
+		}
 		// request list
 		var reqs []c06Req
 		nreq := 40
@@ -359,11 +384,15 @@ func c06(ctx *core.Ctx) {
 			var chain []string
 			switch k := r.Intn(10); {
 			case k < 6:
-				si, ri := r.Intn(2), r.Intn(2)
+				si, ri := r.Intn(2), r.Intn(4)
 				s := cfg.Svcs[si]
 				rq.Path = fmt.Sprintf("%s%s", s.Root, s.Routes[ri].Path)
 				rq.Kind = "routed"
-				chain = append(append(append([]string{}, cn...), names("S", s.Filters)...), names("R", s.Routes[ri].Filters)...)
+				if s.Routes[ri].Produces != "" {
+					rq.Kind = "routed-twin"
+					rq.Accept = s.Routes[ri].Produces
+				}
+				chain = append(append(append([]string{}, cn...), names(fmt.Sprintf("S%d", si), s.Filters)...), names(fmt.Sprintf("R%d", s.Routes[ri].Idx), s.Routes[ri].Filters)...)
 				rq.Expect = append(append([]string{}, chain...), "H")
 			case k < 7:
 				rq.Path = fmt.Sprintf("/f%d/nope", r.Intn(2))
@@ -399,6 +428,9 @@ func c06(ctx *core.Ctx) {
 			req := rt.Req{Method: rq.Method, Path: rq.Path, Hdr: map[string]string{"X-Req": fmt.Sprint(rq.ID)}}
 			if rq.Short != "" {
 				req.Hdr["X-Short"] = rq.Short
+			}
+			if rq.Accept != "" {
+				req.HasAcc, req.Accept = true, rq.Accept
 			}
 			hr := rt.HTTPRequest(&req, nil)
 			hr = hr.WithContext(context.WithValue(context.Background(), fLogKey{}, lg))
